@@ -45,6 +45,8 @@ func (c *Ctx) contractOf(fn *ssa.Function) *FuncContract {
 	return c.cs.Funcs[funcKey(fn)]
 }
 
+func contractFuncKey(fc *FuncContract) string { return fc.Pkg + "." + fc.Name }
+
 func hasLoops(fn *ssa.Function) bool {
 	for _, b := range fn.Blocks {
 		for _, s := range b.Succs {
@@ -161,6 +163,11 @@ func (fr *Frame) staticCall(callee *ssa.Function, free []Val, args []Val, st *St
 	case "errors":
 		if name == "New" {
 			return []Val{ErrV{tFalse}}
+		}
+	}
+	if c.fc != nil && c.fc.Variant != "" {
+		if vfc := c.cs.Funcs[funcKey(callee)+"#"+c.fc.Variant]; vfc != nil && callee != c.top {
+			return fr.callByContract(vfc, callee.Signature, paramNames(callee), args, st, pos, callee.String()+"#"+c.fc.Variant)
 		}
 	}
 	if fc := c.contractOf(callee); fc != nil && !fc.Inline && callee != c.top {
@@ -419,6 +426,11 @@ func (fr *Frame) mathCall(name string, args []Val, st *State, pos token.Pos) Val
 		ts = append(ts, t)
 	}
 	real0 := T{"0.0", SReal}
+	for _, t := range ts {
+		if c.isNaN(t) {
+			panic(vcErr("math.%s applied to a NaN-tainted value is not modelled in NaN mode", name))
+		}
+	}
 	switch name {
 	case "Min":
 		return c.def("min", ite(app(SBool, "<=", ts[0], ts[1]), ts[0], ts[1]))
